@@ -200,7 +200,15 @@ def extract():
     res["academie_dep"] = _find(_in_lists(mod), lambda l: "pouvoir" in l and "dire" in l, "DependentFr.move_object: Académie list")
     res["y_preps"] = _find(_in_lists(_func(pf, "PhraseFr", "pronominalize")), lambda l: "sur" in l, "pronominalize: y prepositions")
     res["y_preps_dep"] = _find(_in_lists(_func(df, "DependentFr", "pronominalize")), lambda l: "sur" in l, "DependentFr.pronominalize: y prepositions")
-    pl = _func(pf, "PhraseFr", "preposition_list")
+    pl = None
+    for tree, cls in ((nt, "NonTerminalFr"), (pf, "PhraseFr")):
+        for node in ast.walk(tree):
+            if isinstance(node, ast.ClassDef) and node.name == cls:
+                for f in node.body:
+                    if isinstance(f, ast.FunctionDef) and f.name == "preposition_list" and pl is None:
+                        pl = f
+    if pl is None:
+        _err("preposition_list not found in NonTerminalFr / PhraseFr")
     preps = None
     for node in ast.walk(pl):
         if isinstance(node, ast.Call) and getattr(node.func, "id", None) == "dict":
